@@ -107,7 +107,9 @@ func or(v, d int) int {
 //	copy:<dir>     copy jobs/<job>/warcs (and lq.db*) into <dir>
 //	hits:<file>    write the profile (point id -> hits so far)
 //	pause          pause.Pause("verif")
-//	sigterm        send SIGTERM to this process, then hold this goroutine until the stop sequence has begun (at most 2 s)
+//	sigterm        wait until controler.WatchSignals() listens, send SIGTERM to this process, then hold this goroutine
+//	               until the stop sequence has begun (at most 2 s)
+//	sigterm-now    the same without waiting for WatchSignals
 //	stop           ask the main goroutine to call controler.Stop(), then hold likewise
 //	sigkill        SIGKILL this process
 //	mark:<text>    append a line to the event file
@@ -127,10 +129,10 @@ type ChildSpec struct {
 	Mode           string `json:"mode"`
 	ExpectFinished int    `json:"expect_finished"` // number of finish messages that mean "all work done"
 	// Quiesce (drain mode, local queue): instead of counting to ExpectFinished, wait until the queue is drained.
-	Quiesce      bool     `json:"quiesce"`
-	StaleClaimed int      `json:"stale_claimed"` // rows that were already CLAIMED before this run started
-	DeadlineS    int      `json:"deadline_s"`    // drain deadline, default 60
-	Profile      bool     `json:"profile"`
+	Quiesce      bool      `json:"quiesce"`
+	StaleClaimed int       `json:"stale_claimed"` // rows that were already CLAIMED before this run started
+	DeadlineS    int       `json:"deadline_s"`    // drain deadline, default 60
+	Profile      bool      `json:"profile"`
 	Triggers     []Trigger `json:"triggers"`
 	// FallbackStop (signals mode): when no stopping trigger has fired FallbackMS after all work was done, SIGTERM anyway.
 	FallbackMS int `json:"fallback_ms"`
@@ -138,11 +140,13 @@ type ChildSpec struct {
 
 // Points used by the engine itself.
 var (
-	PointFinish   = []string{"finisher/finisher.go", "send f.sourceFinishedCh"}
-	PointProduced = []string{"finisher/finisher.go", "send f.sourceProducedCh"}
-	PointLQDelete = []string{"source/lq/client.go", "DeleteURL"}
-	PointLQAdd    = []string{"source/lq/client.go", "AddURL"}
+	PointFinish    = []string{"finisher/finisher.go", "send f.sourceFinishedCh"}
+	PointProduced  = []string{"finisher/finisher.go", "send f.sourceProducedCh"}
+	PointLQDelete  = []string{"source/lq/client.go", "DeleteURL"}
+	PointLQAdd     = []string{"source/lq/client.go", "AddURL"}
 	PointStopBegun = []string{"controler/watchers/disk.go", "ctx.cancel"}
+	// the select of controler.WatchSignals: once it is hit, signal.Notify has been called
+	PointSignalsWatched = []string{"controler/signal.go", "select recv signalWatcherCtx.Done()"}
 )
 
 // QueueState is installed by harnesses that use the local queue (c04): rows by status, read through Zeno's own connection.
@@ -164,6 +168,8 @@ type childState struct {
 	added     atomic.Int64
 	stopBegun chan struct{}
 	stopOnce  sync.Once
+	watched   chan struct{} // closed when WatchSignals has installed its handler
+	watchOnce sync.Once
 	stopReq   chan struct{} // closed when a trigger asked for controler.Stop()
 	stopReqO  sync.Once
 	stopFired atomic.Bool
@@ -201,7 +207,7 @@ func ChildMain() {
 		fmt.Fprintf(os.Stderr, "child: %v\n", err)
 		os.Exit(3)
 	}
-	c := &childState{spec: spec, stopBegun: make(chan struct{}), stopReq: make(chan struct{}), t0: time.Now()}
+	c := &childState{spec: spec, stopBegun: make(chan struct{}), watched: make(chan struct{}), stopReq: make(chan struct{}), t0: time.Now()}
 	c.ev, err = os.OpenFile("events.log", os.O_CREATE|os.O_WRONLY|os.O_APPEND, 0o644)
 	if err != nil {
 		fmt.Fprintf(os.Stderr, "child: %v\n", err)
@@ -217,25 +223,6 @@ func ChildMain() {
 	}
 	allDone := make(chan struct{})
 	var doneOnce sync.Once
-	// engine counters (every hit; the match function does the counting and never fires)
-	vsched.OnPoint(func(id string) bool {
-		switch {
-		case match(id, PointFinish):
-			if n := c.finished.Add(1); int(n) == spec.ExpectFinished && !spec.Quiesce {
-				// the n-th finish message is about to be sent
-				doneOnce.Do(func() { close(allDone) })
-			}
-		case match(id, PointProduced):
-			c.produced.Add(1)
-		case match(id, PointLQDelete):
-			c.deleted.Add(1)
-		case match(id, PointLQAdd):
-			c.added.Add(1)
-		case match(id, PointStopBegun):
-			c.stopOnce.Do(func() { close(c.stopBegun) })
-		}
-		return false
-	}, 1, func() {})
 	for i := range spec.Triggers {
 		t := spec.Triggers[i]
 		if t.N == 0 {
@@ -259,6 +246,29 @@ func ChildMain() {
 			c.fire(&t, id)
 		})
 	}
+	// engine counters (every hit; the match function does the counting and never fires). Registered after the
+	// case's triggers: triggers run in registration order, so a snapshot taken at the finish point is complete
+	// before the main goroutine learns that all work is done.
+	vsched.OnPoint(func(id string) bool {
+		switch {
+		case match(id, PointFinish):
+			if n := c.finished.Add(1); int(n) == spec.ExpectFinished && !spec.Quiesce {
+				// the n-th finish message is about to be sent
+				doneOnce.Do(func() { close(allDone) })
+			}
+		case match(id, PointProduced):
+			c.produced.Add(1)
+		case match(id, PointLQDelete):
+			c.deleted.Add(1)
+		case match(id, PointLQAdd):
+			c.added.Add(1)
+		case match(id, PointStopBegun):
+			c.stopOnce.Do(func() { c.event("stop-begun"); close(c.stopBegun) })
+		case match(id, PointSignalsWatched):
+			c.watchOnce.Do(func() { c.event("signals-watched"); close(c.watched) })
+		}
+		return false
+	}, 1, func() {})
 	c.event("starting mode=%s conf=%s", spec.Mode, spec.Conf)
 	controler.Start()
 	c.event("started")
@@ -371,9 +381,19 @@ func (c *childState) fire(t *Trigger, id string) {
 			pause.Pause("verif")
 		case "mark":
 			c.event("mark %s", arg)
-		case "sigterm":
+		case "sigterm", "sigterm-now":
 			c.stopFired.Store(true)
 			c.writeHits("hits.json")
+			if a == "sigterm" {
+				// the CLI installs its handler right after controler.Start(): a signal before that is
+				// not a stop request Zeno can see (that window has its own moment, sigterm-now)
+				select {
+				case <-c.watched:
+				case <-time.After(10 * time.Second):
+					c.event("WatchSignals not reached within 10 s")
+				}
+			}
+			c.event("SIGTERM")
 			syscall.Kill(os.Getpid(), syscall.SIGTERM)
 			c.holdUntilStopBegun()
 		case "stop":
@@ -398,17 +418,27 @@ func (c *childState) holdUntilStopBegun() {
 
 // DirSizes maps file name to size for a directory (empty when it does not exist).
 func DirSizes(dir string) map[string]int64 {
-	out := map[string]int64{}
-	es, err := os.ReadDir(dir)
-	if err != nil {
-		return out
-	}
-	for _, e := range es {
-		if fi, err := e.Info(); err == nil && fi.Mode().IsRegular() {
-			out[e.Name()] = fi.Size()
+	for try := 0; ; try++ {
+		out := map[string]int64{}
+		es, err := os.ReadDir(dir)
+		if err != nil {
+			return out
+		}
+		clean := true
+		for _, e := range es {
+			fi, err := e.Info()
+			if err != nil {
+				clean = false // renamed or removed between the listing and the stat: list again
+				continue
+			}
+			if fi.Mode().IsRegular() {
+				out[e.Name()] = fi.Size()
+			}
+		}
+		if clean || try == 5 {
+			return out
 		}
 	}
-	return out
 }
 
 // CopyJobState copies warcs/*, lq.db* and the seencheck directory of a job directory.
